@@ -116,16 +116,16 @@ def outcome_of_result(call: dict, r) -> dict:
 BH_KINDS = ["none", "empty", "current", "stale", "future", "flip", "trunc8", "trunc32", "extend", "upper", "newline"]
 BH_WEIGHTS = [("none", 5), ("current", 8), ("stale", 4), ("future", 3), ("flip", 2), ("trunc8", 2), ("trunc32", 1),
               ("extend", 1), ("upper", 1), ("newline", 1), ("empty", 1), ("spaces", 1), ("padded", 1), ("prefixed", 1)]
-STEP_KINDS = [("ext_crlf", 2), ("ext_binary", 1), ("content", 8), ("changes", 5), ("normalize", 3), ("content_dry", 2), ("changes_dry", 1), ("normalize_dry", 1),
+STEP_KINDS = [("ext_empty", 2), ("ext_crlf", 2), ("ext_binary", 1), ("content", 8), ("changes", 5), ("normalize", 3), ("content_dry", 2), ("changes_dry", 1), ("normalize_dry", 1),
               ("cli_content", 2), ("cli_changes", 2), ("atomic", 2), ("ext_valid", 3), ("ext_invalid", 1), ("ext_delete", 1),
               ("bad_both", 1), ("bad_path", 1), ("bad_content", 2), ("ext_lenient", 2)]
 
 
 def gen_history(t: Tape, idx: int, maxlen: int) -> dict:
     n = 1 + t.choose(maxlen, "h.len")
-    init_kind = t.weighted([("canonical", 6), ("absent", 2), ("lenient", 2), ("frontmatter", 1)], "h.init")
+    init_kind = t.weighted([("canonical", 6), ("absent", 2), ("lenient", 2), ("frontmatter", 1), ("empty", 1)], "h.init")
     m = f"h{idx:x}"
-    init = None if init_kind == "absent" else (
+    init = None if init_kind == "absent" else "" if init_kind == "empty" else (
         docs.canonical(docs.gen_doc(t, m + "i")) if init_kind == "canonical" else docs.gen_doc(t, m + "i", init_kind))
     steps = []
     for k in range(n):
@@ -150,6 +150,8 @@ def gen_history(t: Tape, idx: int, maxlen: int) -> dict:
             st["text"] = docs.gen_doc(t, mk + "x", t.pick(["canonical", "frontmatter"], "h.crlf")).replace("\n", "\r\n")
         if kind == "ext_binary":
             st["text"] = None
+        if kind == "ext_empty":
+            st["text"] = ""  # truncated in place to zero bytes: an existing file whose text is the empty string
         if kind == "ext_invalid":
             st["text"] = t.pick(docs.UNPARSEABLE + ["plain prose, not octave :: {\n"], "h.inv")
         if kind == "bad_path":
@@ -589,7 +591,7 @@ def abstract_trace(abstract, installs, outs, writers) -> str:
 # --------------------------------------------------------------------------- #
 
 L1X_ALPHABET = [(k, b) for k in ("content", "changes", "normalize", "content_dry") for b in ("none", "current", "stale", "future")] + [
-    ("ext_valid", "none")]
+    ("ext_valid", "none"), ("ext_empty", "none")]
 
 
 def l1x_count(maxlen: int) -> int:
@@ -621,6 +623,8 @@ def l1x_history(index: int) -> dict:
             st["changes"] = {"MARK": "c" + mk}
         elif kind == "ext_valid":
             st["text"] = f"===DOC===\nMETA:\n  TYPE::TEST\n  VERSION::\"1.0\"\nMARK::e{mk}\nK0::x -> y\n===END===\n"
+        elif kind == "ext_empty":
+            st["text"] = ""
         steps.append(st)
     init = "===DOC===\nMETA:\n  TYPE::TEST\n  VERSION::\"1.0\"\nMARK::init\nK0::a -> b\n===END===\n"
     return {"layer": "L1", "init": init, "steps": steps, "prop": PROP, "seed": 0, "enumerated": True}
